@@ -271,13 +271,16 @@ Definition cut_labels (parents : list nat) (valid : nat -> bool) : list nat :=
   let isleaf v := negb (existsb (fun w => negb (Nat.eqb w v) && Nat.eqb (par w) v) kept) in
   map (root_of V par) (filter isleaf kept).
 
+Fixpoint find_pos (a : nat) (s : list nat) (i : nat) : option nat :=
+  match s with
+  | [] => None
+  | b :: s' => if Nat.eqb a b then Some i else find_pos a s' (S i)
+  end.
 Fixpoint rename_from (l : list nat) (seen : list nat) : list nat :=
   match l with
   | [] => []
   | a :: r =>
-      let fix pos (s : list nat) (i : nat) : option nat :=
-          match s with [] => None | b :: s' => if Nat.eqb a b then Some i else pos s' (S i) end in
-      match pos seen O with
+      match find_pos a seen O with
       | Some i => i :: rename_from r seen
       | None => length seen :: rename_from r (seen ++ [a])
       end
@@ -331,3 +334,85 @@ Definition ward_raises (int1 : bool) (d n : nat) (G : list (nat * nat)) (feat : 
   match ward int1 d n G feat with Some _ => false | None => true end.
 Definition onats_eqb (a b : option (list nat)) : bool :=
   match a, b with Some x, Some y => nats_eqb x y | None, None => true | _, _ => false end.
+
+(* ---- certificate checkers (sound w.r.t. ProperDendrogram / CheapestMerges, ProofsH.v) ---- *)
+(* within-cluster sum of squares of a set of rows, by definition *)
+Definition wss (d : nat) (xs : list vec) : Q := qsum (map (fun x => sqdist d x (vmean d xs)) xs).
+
+Fixpoint reaches (fuel : nat) (parents : list nat) (x v : nat) : bool :=
+  Nat.eqb x v ||
+  match fuel with
+  | O => false
+  | S f => let p := nth x parents x in negb (Nat.eqb p x) && reaches f parents p v
+  end.
+
+Definition leafset (n : nat) (parents : list nat) (v : nat) : list nat :=
+  filter (fun x => reaches (length parents) parents x v) (seq 0 n).
+
+Definition edge_between (G : list (nat * nat)) (x y : nat) : bool := has_edge G x y || has_edge G y x.
+Definition adjacent (G : list (nat * nat)) (A B : list nat) : bool :=
+  existsb (fun x => existsb (fun y => edge_between G x y) B) A.
+
+Definition feats (feat : list vec) (l : list nat) : list vec := map (fun x => nth x feat []) l.
+
+(* clusters alive when node k is created: not yet merged into a node < k *)
+Definition alive (parents : list nat) (k v : nat) : bool :=
+  Nat.ltb v k && (Nat.eqb (nth v parents v) v || Nat.leb k (nth v parents v)).
+
+(* the same number from the sufficient statistics (equal to wss by ProofsH.wss_fast_eq);
+   this is what the checkers evaluate *)
+Definition colsum (d : nat) (xs : list vec) : vec := map (fun j => qsum (col j xs)) (seq 0 d).
+Definition colsq (d : nat) (xs : list vec) : vec := map (fun j => qsum (map (fun v => v * v) (col j xs))) (seq 0 d).
+Definition wss_fast (d : nat) (xs : list vec) : Q :=
+  match xs with [] => 0 | _ => inertia_vec d (Qn (length xs)) (colsum d xs) (colsq d xs) end.
+
+(* LS = the table of leaf sets, computed once (vm_compute is call-by-value: the `if`s keep the
+   expensive tests lazy) *)
+Definition cheapest_ok (d : nat) (G : list (nat * nat)) (feat : list vec) (parents : list nat) (height : list Q)
+           (LS : list (list nat)) (k : nat) : bool :=
+  forallb (fun u =>
+     if alive parents k u then
+       forallb (fun v =>
+          if negb (Nat.eqb u v) && alive parents k v then
+            if adjacent G (nth u LS []) (nth v LS []) then
+              Qle_bool (nth k height 0) (wss_fast d (feats feat (nth u LS [] ++ nth v LS [])))
+            else true
+          else true) (seq 0 k)
+     else true) (seq 0 k).
+
+Definition node_ok (d : nat) (G : list (nat * nat)) (feat : list vec) (parents : list nat) (height : list Q)
+           (LS : list (list nat)) (k : nat) : bool :=
+  match filter (fun v => negb (Nat.eqb v k) && Nat.eqb (nth v parents v) k) (seq 0 (length parents)) with
+  | [a; b] => Nat.ltb a k && Nat.ltb b k && adjacent G (nth a LS []) (nth b LS [])
+              && Qeq_bool (nth k height 0) (wss_fast d (feats feat (nth k LS [])))
+  | _ => false
+  end.
+
+Definition vertex_ok (n : nat) (parents : list nat) (height : list Q) (v : nat) : bool :=
+  let p := nth v parents v in
+  Nat.leb v p && Nat.ltb p (length parents) && (Nat.eqb p v || Nat.leb n p)
+  && Qle_bool (nth v height 0) (nth p height 0).
+
+(* every edge of G between items stays inside one tree *)
+Definition edge_ok (n : nat) (parents : list nat) (e : nat * nat) : bool :=
+  if Nat.ltb (fst e) n && Nat.ltb (snd e) n then
+    existsb (fun r => if Nat.eqb (nth r parents r) r then
+                        if reaches (length parents) parents (fst e) r then reaches (length parents) parents (snd e) r else false
+                      else false) (seq 0 (length parents))
+  else true.
+
+Definition leafsets (n : nat) (parents : list nat) : list (list nat) :=
+  map (leafset n parents) (seq 0 (length parents)).
+
+(* structural clauses only (any linkage whose height is the merged within-cluster SS) *)
+Definition dendro_check (d n : nat) (G : list (nat * nat)) (feat : list vec) (parents : list nat) (height : list Q) : bool :=
+  let V := length parents in
+  let LS := leafsets n parents in
+  Nat.leb n V && forallb (vertex_ok n parents height) (seq 0 V)
+  && forallb (node_ok d G feat parents height LS) (seq n (V - n))
+  && forallb (edge_ok n parents) G.
+
+(* ... plus: each merge is the cheapest admissible one under Ward's cost *)
+Definition ward_check (d n : nat) (G : list (nat * nat)) (feat : list vec) (parents : list nat) (height : list Q) : bool :=
+  dendro_check d n G feat parents height
+  && forallb (cheapest_ok d G feat parents height (leafsets n parents)) (seq n (length parents - n)).
